@@ -163,10 +163,31 @@ def corpus_files():
     return sorted(f for f in os.listdir(d) if f.endswith((".cif", ".pdb")) and os.path.getsize(os.path.join(d, f)) > 0)
 
 
+ABASIC = ("1ATO.pdb#abasic", "1A1T_1_B.cif#abasic")
+
+
 def load_corpus(name):
+    """A corpus file through the real reader.  '<file>#abasic': the same structure in which every fifth
+    nucleotide has lost its base (backbone atoms only, base letter '?' - what the reader reports for an abasic
+    site): still a nucleotide of the chain, but one whose letter is unknown."""
     from rnapolis.parser import read_3d_structure
-    with open(os.path.join(lib.REPO, "tests", name)) as f:
-        return read_3d_structure(f, None)
+    base = name.split("#")[0]
+    with open(os.path.join(lib.REPO, "tests", base)) as f:
+        s = read_3d_structure(f, None)
+    if name.endswith("#abasic"):
+        from rnapolis.tertiary import Residue3D, Structure3D
+        out, n = [], 0
+        for r in s.residues:
+            if r.is_nucleotide:
+                n += 1
+                if n % 5 == 3:
+                    keep = tuple(a for a in r.atoms if a.name.endswith("'") or a.name in ("P", "OP1", "OP2", "OP3"))
+                    r2 = Residue3D(r.label, r.auth, r.model, "?", keep)
+                    if r2.is_nucleotide:
+                        r = r2
+            out.append(r)
+        s = Structure3D(out)
+    return s
 
 
 def _dist(a, b):
@@ -504,7 +525,7 @@ def random_entries(rng, st, *, maxn=30):
 def corpus_structs():
     """Structure records for every usable corpus file (parsed once per run, in the parent)."""
     out = []
-    for name in corpus_files():
+    for name in corpus_files() + list(ABASIC):
         try:
             s3d = load_corpus(name)
         except Exception:
